@@ -20,6 +20,7 @@ import z3
 
 from pyvc import ops
 from pyvc.ops import Unsupported
+from pyvc.state import HeapObj
 from pyvc.values import NONE, VBool, VExt, VFunc, VInt, VNoneT, VReal, VRef, VSeq, VStr, VTuple, VUnk, ext_sort, fresh_name
 
 from contracts import c03_exec as X
@@ -125,6 +126,10 @@ def register_refuter():
     if seqmax_refuter not in solve.EXTRA_REFUTERS:
         solve.EXTRA_REFUTERS.append(seqmax_refuter)
         solve.SAT_UNTRUSTED.append(lambda pc, goal: _mentions_over(pc) or _mentions_seqmax(list(pc) + [goal]))
+
+
+STR_GROUP = {}      # id of a str term that is the text of a regex group -> group facts (contracts/c04_regex.py)
+FLOAT_FACTS = {}    # id of a Float term -> {"nan": bool}
 
 
 def clamp(t):
@@ -258,6 +263,17 @@ class IfaceExecutor(X.UnitsExecutor):
         m = self.class_module(cls)
         return class_schema(m, cls) if m is not None else None
 
+    def apply_contract(self, st, c, args, kwargs, node):
+        outs = getattr(c, "call_outcomes", None)
+        if outs is None:
+            return super().apply_contract(st, c, args, kwargs, node)
+        saved = c.returns
+        c.returns = outs           # at call sites only: the possible result shapes [(cond, V)]
+        try:
+            return super().apply_contract(st, c, args, kwargs, node)
+        finally:
+            c.returns = saved
+
     # ------------------------------------------------ over-approximations --
     def exc_any(self, st, site, also=()):
         st.assume(OVER)
@@ -367,8 +383,59 @@ class IfaceExecutor(X.UnitsExecutor):
                 return [(s2, VInt(SEQMAX(lam, v.length, z3.IntVal(0))))]
         return super()._minmax(st, args, kwargs, node, is_min)
 
+    # ---------------------------------------------------------------- floats --
+    # float values that come from text are abstract (`Float`): +-inf and nan are possible, so round()/int() may raise
+    # OverflowError / ValueError (ASSUMED contract of the builtins: nothing else).  Whether a raising path is feasible is
+    # not decided by the model (marker OVER): only a natively reproduced input makes it a violation.
+    def b_round(self, st, args, kwargs, node):
+        v = args[0]
+        if isinstance(v, VExt) and v.sort == "Float" and len(args) == 1:
+            no_nan = FLOAT_FACTS.get(v.t.get_id(), {}).get("nan") is False
+            for cls in ("OverflowError",) if no_nan else ("OverflowError", "ValueError"):
+                s2 = st.fork().assume(OVER)
+                self.raise_in(s2, self.mk_exc(cls, site=f"round() of a non-finite float at {self.loc(node)}"))
+            return [(st, VInt(z3.Int(fresh_name("round"))))]
+        if isinstance(v, VInt):
+            return [(st, v)]
+        return self.havoc_call(st, "round", args, node)
+
+    def b_int(self, st, args, kwargs, node):
+        if len(args) == 1 and isinstance(args[0], VExt) and args[0].sort == "Float":
+            for cls in ("OverflowError", "ValueError"):
+                s2 = st.fork().assume(OVER)
+                self.raise_in(s2, self.mk_exc(cls, site=f"int() of a non-finite float at {self.loc(node)}"))
+            return [(st, VInt(z3.Int(fresh_name("int_of_float"))))]
+        return super().b_int(st, args, kwargs, node)
+
+    def binop(self, st, op, a, b, node, inplace=False):
+        fa = isinstance(a, VExt) and a.sort == "Float"
+        fb = isinstance(b, VExt) and b.sort == "Float"
+        if fa or fb:
+            other = b if fa else a
+            if isinstance(other, (VReal, VInt)) or (isinstance(other, VExt) and other.sort == "Float"):
+                if op in ("Div", "FloorDiv", "Mod") and not (isinstance(other, VReal) and fa and z3.is_rational_value(other.t) and not z3.is_true(z3.simplify(other.t == 0))):
+                    s2 = st.fork().assume(OVER)
+                    self.raise_in(s2, self.mk_exc("ZeroDivisionError"))
+                if op in ("Add", "Sub", "Mult", "Div"):
+                    r = VExt("Float")
+                    src = a if fa else b
+                    pos_const = isinstance(other, VReal) and z3.is_rational_value(other.t) and z3.is_true(z3.simplify(other.t > 0))
+                    if op in ("Mult", "Div") and pos_const and FLOAT_FACTS.get(src.t.get_id(), {}).get("nan") is False:
+                        FLOAT_FACTS[r.t.get_id()] = {"nan": False}      # (finite or +inf) * / positive constant: never nan
+                    return [(st, r)]
+        return super().binop(st, op, a, b, node, inplace)
+
     # -------------------------------------------------------- constructors --
     def construct(self, st, t, args, kwargs, node):
+        if t.name == "float" and len(args) == 1 and isinstance(args[0], VStr):
+            r = VExt("Float")
+            g = STR_GROUP.get(args[0].t.get_id())
+            if g is not None and g.get("cls") in ("decimal", "dec", "udec"):
+                FLOAT_FACTS[r.t.get_id()] = {"nan": False}     # float(<decimal numeral>) never raises; finite or +inf
+            else:
+                s2 = st.fork().assume(OVER)
+                self.raise_in(s2, self.mk_exc("ValueError", site=f"float() of a non-numeric string at {self.loc(node)}"))
+            return [(st, r)]
         if t.name in ("ImageMetadata", "TableDim") and t.name not in self.module.classes or t.name in ("ImageMetadata", "TableDim"):
             mod = self.class_module(t.name)
             if mod is not None:
@@ -399,9 +466,32 @@ def new_bytesio(ex, st, args, kwargs, node):
     return [(st, b)]
 
 
+def install_pydict(reg):
+    """dict values of well-typed fields (List[Dict[str, Any]]): keys()/values()/items()/get() are total."""
+    D = ext_sort("PyDict")
+    dlen = fun("dict_len", D, I)
+
+    def keys(ex, st, o, args, kwargs, node):
+        st.assume(dlen(o.t) >= 0)
+        key_at = fun("dict_key_at", D, I, ext_sort("PyKey"))
+        return [(st, VSeq(dlen(o.t), lambda k: VExt("PyKey", key_at(o.t, k)), ("obj", "PyKey")))]
+
+    def values(ex, st, o, args, kwargs, node):
+        st.assume(dlen(o.t) >= 0)
+        return [(st, VSeq(dlen(o.t), lambda k: VUnk("dict-value"), "unk"))]
+
+    def get(ex, st, o, args, kwargs, node):
+        return [(st, VUnk("dict.get"))]
+    reg.method_models[("PyDict", "keys")] = keys
+    reg.method_models[("PyDict", "values")] = values
+    reg.method_models[("PyDict", "items")] = values
+    reg.method_models[("PyDict", "get")] = get
+
+
 def install(reg):
     X.install(reg)
     register_refuter()
+    install_pydict(reg)
     common.install_bytesio(reg)
     reg.ext_models["io.BytesIO"] = new_bytesio
     reg.ext_models[("new", "BytesIO")] = new_bytesio
